@@ -10,9 +10,16 @@ pub mod c07;
 pub mod c08;
 pub mod c12;
 pub mod c13;
+pub mod c15;
 pub mod c16a;
+pub mod c16b;
+pub mod c16;
+pub mod c17;
 pub mod c18;
+pub mod c19;
+pub mod c20;
 pub mod c20a;
+pub mod c20b;
 
 pub struct Prop {
     pub info: &'static PropInfo,
@@ -33,8 +40,11 @@ pub fn all() -> Vec<Prop> {
         Prop { info: &c12::INFO, run: c12::run, replay: c12::replay },
         Prop { info: &c13::INFO, run: c13::run, replay: c13::replay },
         Prop { info: &c13::INFO14, run: c13::run14, replay: c13::replay14 },
-        Prop { info: &c16a::INFO, run: c16a::run, replay: c16a::replay },
+        Prop { info: &c15::INFO, run: c15::run, replay: c15::replay },
+        Prop { info: &c16::INFO, run: c16::run, replay: c16::replay },
+        Prop { info: &c17::INFO, run: c17::run, replay: c17::replay },
         Prop { info: &c18::INFO, run: c18::run, replay: c18::replay },
-        Prop { info: &c20a::INFO, run: c20a::run, replay: c20a::replay },
+        Prop { info: &c19::INFO, run: c19::run, replay: c19::replay },
+        Prop { info: &c20::INFO, run: c20::run, replay: c20::replay },
     ]
 }
